@@ -19,7 +19,7 @@ func runC13(cfg *hx.Config) {
 	if cfg.Thorough() {
 		n = 800
 	}
-	for _, tname := range []string{"Dflt", "DOuter", "Incl", "Incl2", "Big"} {
+	for _, tname := range []string{"Dflt", "DOuter", "Incl", "Incl2", "Big", "DElems"} {
 		t := ref(tname)
 		for i := 0; i < n; i++ {
 			v := schema.gen(r, t, genOpts{utf8: true, depth: 2})
@@ -70,6 +70,33 @@ func runC13(cfg *hx.Config) {
 			sh.Add(c.coq(), c.describe())
 		}
 	}
+	// freshness of DECODED instances: two instances decoded from the same document share nothing
+	for _, tname := range []string{"Dflt", "DOuter", "DElems"} {
+		t := ref(tname)
+		for _, doc := range []string{`{"r":1,"dn":{"r":2},"e":"RED"}`} {
+			for _, f := range []int{0} {
+				a, oca := decode(registry[tname], f, doc, nil, 0)
+				b, ocb := decode(registry[tname], f, doc, nil, 0)
+				if (oca.Class != "ok" && oca.Class != "missing") || (ocb.Class != "ok" && ocb.Class != "missing") {
+					continue
+				}
+				before := schema.fromGo(t, b.Elem())
+				scribble(a.Elem())
+				after := schema.fromGo(t, b.Elem())
+				rep.Evaluations++
+				if !valEq(before, after) {
+					rep.Fail("defaults:shared-between-instances", "mutating a default-populated value of one decoded instance changed another instance", "v2/codegen/types/record.go:setDefaultValue", map[string]interface{}{"type": tname, "document": doc}, nil)
+				}
+				// ... and with a freshly constructed / later decoded instance
+				c, occ := decode(registry[tname], f, doc, nil, 0)
+				if occ.Class == "ok" || occ.Class == "missing" {
+					if !valEq(before, schema.fromGo(t, c.Elem())) {
+						rep.Fail("defaults:shared-between-instances", "an instance decoded after another one was mutated does not carry the pristine defaults", "v2/codegen/types/record.go:setDefaultValue", map[string]interface{}{"type": tname, "document": doc}, nil)
+					}
+				}
+			}
+		}
+	}
 	// constructors and freshness
 	for name, ctor := range constructors {
 		t := ref(name)
@@ -93,6 +120,10 @@ func runC13(cfg *hx.Config) {
 		after := schema.fromGo(t, b.Elem())
 		if !valEq(before, after) {
 			rep.Fail("defaults:shared-between-instances", "mutating a default-populated collection of one instance changed another instance", "v2/codegen/types/record.go:setDefaultValue", cd, nil)
+		}
+		fresh := reflect.ValueOf(ctor).Call(nil)[0]
+		if !valEq(before, schema.fromGo(t, fresh.Elem())) {
+			rep.Fail("defaults:shared-between-instances", "an instance constructed after another one was mutated does not carry the pristine defaults", "v2/codegen/types/record.go:setDefaultValue", cd, nil)
 		}
 	}
 	sh.Close()
@@ -198,8 +229,27 @@ func scribble(v reflect.Value) {
 			scribble(v.Index(i))
 		}
 	case reflect.Map:
-		if v.Type().Elem().Kind() == reflect.Int32 && !v.IsNil() {
+		if v.IsNil() {
+			return
+		}
+		// mutate THROUGH the elements first (pointers to records, slices), then the map itself
+		for _, k := range v.MapKeys() {
+			e := v.MapIndex(k)
+			switch e.Kind() {
+			case reflect.Ptr, reflect.Slice:
+				scribble(e)
+			}
+		}
+		if v.Type().Elem().Kind() == reflect.Int32 {
 			v.SetMapIndex(reflect.ValueOf("scribbled"), reflect.ValueOf(int32(1)))
+		}
+	case reflect.Int32:
+		if v.CanSet() {
+			v.SetInt(v.Int() + 7)
+		}
+	case reflect.String:
+		if v.CanSet() {
+			v.SetString(v.String() + "!")
 		}
 	}
 	_ = fmt.Sprint
